@@ -8,6 +8,8 @@ func init() {
 		c.Replace = map[string]string{pfx + "encodeRaw": "!vhStubEncodeRaw", pfx + "decodeRaw": "!vhStubDecodeRaw"}
 	}
 	big := func(c *gossa.Config, thorough bool) { c.ConcCap = 300; c.IteCap = 256 }
+	// the 32-bit multiply lemmas take 6-20 s on an idle machine and went past the default 60 s on a loaded one
+	lemma := func(c *gossa.Config, thorough bool) { c.CheckTimeout = 300000 }
 	p := &PropSpec{ID: "C17", Level: "model_checking",
 		Outside: []string{
 			"acceptance of the output by the xz tool and by Wuffs std/lzma, std/xz (external decoders are not encodable)",
@@ -36,8 +38,8 @@ func init() {
 		{Prop: "C17", Pkg: L, Dir: "c17", Func: "VH_C17_RobustXz", Label: "[m=8]", Params: map[string]int{"M": 8}, Reach: []string{"robustxz/done"}},
 		{Prop: "C17", Pkg: L, Dir: "c17", Func: "VH_C17_Uvarint", Aux: true, Reach: []string{"uvarint/done"}},
 		{Prop: "C17", Pkg: L, Dir: "c17", Func: "VH_C17_UvarintTotal", Aux: true, Params: map[string]int{"N": 10}, Reach: []string{"uvarinttotal/done"}},
-		{Prop: "C17", Pkg: L, Dir: "c17", Func: "VH_C17_EncStep", Aux: true, Params: map[string]int{"MAXEXTRA": 1}, Reach: []string{"encstep/done"}},
-		{Prop: "C17", Pkg: L, Dir: "c17", Func: "VH_C17_Duality", Aux: true, Reach: []string{"duality/done"}},
+		{Prop: "C17", Pkg: L, Dir: "c17", Func: "VH_C17_EncStep", Aux: true, Params: map[string]int{"MAXEXTRA": 1}, Reach: []string{"encstep/done"}, Cfg: lemma},
+		{Prop: "C17", Pkg: L, Dir: "c17", Func: "VH_C17_Duality", Aux: true, Reach: []string{"duality/done"}, Cfg: lemma},
 		{Prop: "C17", Pkg: L, Dir: "c17", Func: "VH_C17_ShiftLowLong", Aux: true, Reach: []string{"shiftlong/done"}, Cfg: big},
 	}
 	register(p)
